@@ -27,7 +27,7 @@ def build(rnd, root):
             kinds[sub] = "plain"
             if rnd.random() < 0.15:
                 # a file named like a legacy configuration that is none (no project key): not a project of any schema version
-                open(os.path.join(sub, "signac.rc"), "w").write(rnd.choice(["something = 1\n", "# empty\n", "workspace_dir = ws\n"]))
+                open(os.path.join(sub, "signac.rc"), "w").write(rnd.choice(["something = 1\n", "# empty\n", "workspace_dir = ws\n", "[section\nkey = 'unterminated\n", "= no key\n[[too deep]]\n", "project = \"x\nschema_version = (\n"]))
             is_proj = rnd.random() < 0.4
             if is_proj:
                 signac.init_project(sub)
